@@ -869,6 +869,13 @@ func (c *Ctx) CheckGate(rule string, fn *ssa.Function, fnName string, g Guard, s
 				allUncertain = false
 			}
 		}
+		if DeferRewritesResults(fn) {
+			// named results rewritten by a deferred function (`defer func() { if err != nil { err = wrap(err) } }()`):
+			// every return goes through the result cells and the deferred call, where the gate cannot tell
+			// a failure from a success
+			c.add(rule, construct, c.P.Pos(InstrPos(r.Escapes[0].Ret)), Undecided, fmt.Sprintf("%s has named results that a deferred function rewrites: which returns are successes is not visible to the gate", fnName))
+			return false
+		}
 		if od := OpaqueDispatch(fn); od != "" && len(r.Sites) == 0 {
 			// the guard was only found as a tail/helper site and the routine dispatches opaquely
 			c.add(rule, construct, c.P.Pos(InstrPos(r.Escapes[0].Ret)), Undecided, fmt.Sprintf("%s works through %s: which returns follow %s is not visible to the gate", fnName, od, g.Name))
@@ -1143,4 +1150,37 @@ func ReachableWithin(from *ssa.BasicBlock, to ssa.Instruction, removed map[Edge]
 		}
 		return b == to.Block(), false
 	})
+}
+
+// DeferRewritesResults: fn has named results and defers a function literal that captures one of
+// them (its result cells are then read and written behind every return).
+func DeferRewritesResults(fn *ssa.Function) bool {
+	res := fn.Signature.Results()
+	named := map[string]bool{}
+	for i := 0; i < res.Len(); i++ {
+		if n := res.At(i).Name(); n != "" && n != "_" {
+			named[n] = true
+		}
+	}
+	if len(named) == 0 {
+		return false
+	}
+	for _, b := range fn.Blocks {
+		for _, ins := range b.Instrs {
+			d, ok := ins.(*ssa.Defer)
+			if !ok {
+				continue
+			}
+			mc, isMC := d.Call.Value.(*ssa.MakeClosure)
+			if !isMC {
+				continue
+			}
+			for _, bv := range mc.Bindings {
+				if al, isAl := bv.(*ssa.Alloc); isAl && named[al.Comment] {
+					return true
+				}
+			}
+		}
+	}
+	return false
 }
